@@ -154,7 +154,7 @@ PROPS["C11"] = dict(
     diff_fields=r".*",
     spec_ids=["C11"],
     technique="Lean 4: safety and progress of the fetcher transition system over all accepted event lists and fault sets (dispatch_once, never_excluded, results_nodup, bounded, progress, can_terminate, faulty_result, cancel_stops_dispatch); trace validation with injected faults, gated completions and timeouts",
-    level_text="Kernel-checked for every fault set, exclusion predicate and accepted event list: no hash is dispatched twice, none is excluded or unrequested, results are duplicate-free, the number of events is at most 2*|mentioned hashes|+1 (no infinite execution), a non-terminated state has an enabled event, and at quiescence the result is exactly the set reachable through retrievable non-excluded entries; after cancel nothing is dispatched. Wall-clock termination within the timeout and lost-wake-up freedom of the Cond loop are exercised (watchdog, elapsed time), not proved.",
+    level_text="Kernel-checked for every fault set, exclusion predicate and accepted event list: no hash is dispatched twice, none is excluded or unrequested, results are duplicate-free, the number of events is at most 2*|mentioned hashes|+1 (no infinite execution), a non-terminated state has an enabled event, and at quiescence the result is exactly the set reachable through retrievable non-excluded entries; after cancel nothing is dispatched. Wall-clock termination within the timeout and lost-wake-up freedom of the Cond loop are exercised (watchdog, elapsed time), not proved. One level below, the synchronisation skeleton of processQueue (mutex, semaphore, condition variable, cancellation) is modelled (Model/FetchSync.lean) and proved deadlock-free with no lost wake-up, bounded and clean at return for every concurrency limit, hash budget and interleaving (sync_no_deadlock, sync_bounded, sync_at_return); its operation order is regenerated from entry/fetcher.go (syncShape) and closed by decide.",
     level_note=FETCH_NOTE,
     design_ref="§8 C11",
     rule=FETCH_RULE,
